@@ -901,6 +901,34 @@ def make_enum_model(cls):
     return model
 
 
+def m_bytes(interp, fr, *args, **kw):
+    """bytes(iterable of ints) / bytes(bytes): each int must be in range(256) (ValueError otherwise)"""
+    if not _has_sym(args) and not _has_sym(kw):
+        try:
+            return bytes(*args, **kw)
+        except (ValueError, TypeError) as ex:
+            raise PyRaise(type(ex))
+    if len(args) != 1 or kw:
+        raise Undecided("bytes() form not modelled")
+    v = args[0]
+    if isinstance(v, SBytes):
+        return v
+    if isinstance(v, (tuple, list)):
+        segs = []
+        for x in v:
+            if isinstance(x, (SInt, SBool, int)):
+                t = zint(x)
+                if not interp.ctx.decide(z3.And(t >= 0, t <= 255)):
+                    raise PyRaise(ValueError, "bytes must be in range(0, 256)")
+                segs.append(Byte(z3.simplify(t)))
+            else:
+                raise PyRaise(TypeError, "an integer is required")
+        return SBytes(segs)
+    if isinstance(v, (SInt, SBool)):
+        raise Undecided("bytes(n) with symbolic n")
+    raise Undecided("bytes() of a symbolic value")
+
+
 def m_isfinite(interp, fr, v):
     import math
     if isinstance(v, SOpaque) and v.kind == "float":
@@ -947,6 +975,7 @@ def base_models():
         uuid.UUID: m_uuid,
         datetime.timedelta: m_timedelta,
         divmod: m_divmod,
+        bytes: m_bytes,
         __import__("math").isfinite: m_isfinite,
         datetime.timezone.utc.utcoffset: lambda interp, fr, *a: datetime.timedelta(0),
     }
